@@ -113,7 +113,7 @@ def check(seed, tier):
     core.build_harness()
     # mode M: the specification modules against hand-derived expectations on hand-written projects
     core.mc(rep, "mc/MC_Walk.tla", "MC_Walk.cfg", workers=1)
-    meta = core.gen("C14", seed, tier, shards=8)
+    meta = core.gen("C14", seed, tier, shards=4 if tier == "quick" else 8)
     _validate(rep, meta["files"], int(os.environ.get("VERIF_PAR", 4 if tier == "quick" else 8)))
     core.canary(rep, TRACE_SPEC, meta["files"][0], _mutate, n=60)
     rep.traces, rep.events = meta["cases"], meta["events"]
